@@ -131,6 +131,9 @@ func c12(c *Ctx) {
 	// pooled payload buffer (rule S3 of C16)
 	r.Floor("S3", "borrowed/owned byte-slice source sites", ownership.BorrowTaint(c.P, r), 10)
 	r.Floor("A3", "structure fields compared", countPrefix(r, "A3/", "/field/"), 60)
+	// "payload is the rest of the unit when PES_packet_length is zero": every packet WriteData emits is filled exactly — padding
+	// after the payload of an unbounded PES (any stream id, once the packet exceeds 65535 bytes) is read back as payload (F1 of C04)
+	c04ExactFill(c)
 }
 
 // pesPacketLengthRule: the 16 bits emitted as PES_packet_length are the number of bytes that follow them (the rest of
